@@ -355,11 +355,17 @@ def path_confined(ctx: Ctx, v: LocalView, rule: str) -> int:
         f = v.func(method)
         # functions that build the location: the method itself and same-class / module helpers it calls
         funcs = [f]
-        for call in [x for x in f.own_nodes() if isinstance(x, ast.Call)]:
-            fs, _ = prog.callees(f, call, ctx._types)
-            for g in fs:
-                if (f_cls(g) is v.cls or g.cls is None) and g.module is f.module and g not in funcs:
-                    funcs.append(g)
+        frontier = [f]
+        for _depth in range(3):
+            nxt = []
+            for h_ in frontier:
+                for call in [x for x in h_.own_nodes() if isinstance(x, ast.Call)]:
+                    fs, _ = prog.callees(h_, call, ctx._types)
+                    for g in fs:
+                        if (f_cls(g) is v.cls or g.cls is None) and g.module is f.module and g not in funcs:
+                            funcs.append(g)
+                            nxt.append(g)
+            frontier = nxt
         n += 1
         desc = f"{method}: '.' and '..' segments are rejected (or containment in the data directory is tested exactly) before the location is used"
         verdict, wit, where = "none", [], f.loc()
@@ -493,6 +499,89 @@ def writer_reader_agree(ctx: Ctx, v: LocalView, rule: str) -> int:
             rep.bad(rule, _site(v, "sync_paths"), desc, e.where(), [f"{e.where()}: link target {show(e.src)}"], "link-target",
                     what="the entry of a path does not point to the blob the store serves")
     return n
+
+
+def readers_read_only(ctx: Ctx, v: LocalView, rule: str) -> int:
+    """has_blob / fetch_blob / fetch_paths change nothing under a name that the store's protocol reads: a reader killed (or
+    racing with another reader) in the middle of such a change leaves a committed entry torn, and no writer will repair it
+    because the key is still reported present."""
+    rep = ctx.report
+    n = 0
+    for method in ("has_blob", "fetch_blob", "fetch_paths"):
+        n += 1
+        f = v.func(method)
+        bad = [e for e in _dedupe(v.eff[method]) if e.kind in MUTATING + ("CREATE_EXCL",) and not unique_sources(e.term)
+               and (e.term in v.visible or strip_unique(e.term) in v.visible or any(mentions_attr(e.term, a) for a in ("_root", "_data_root")) or mentions_sym(e.term, "KEY") or mentions_sym(e.term, "PATH"))]
+        desc = f"{method} performs no write / rename / removal on the entries of the store"
+        if not bad:
+            rep.ok(rule, _site(v, method), desc, f.loc())
+        else:
+            rep.bad(rule, _site(v, method), desc, bad[0].where(), [f"{e.where()}: {e!r} ({e.extra.get('how', '')})" for e in bad] + [
+                "a process that only READS a committed entry and is killed between the truncating open and the close leaves it empty: has_blob stays true, "
+                "so the blob is never stored again and every later fetch of the key (and every load of a path linked to it) fails"],
+                f"reader-writes:{method}", what=f"{method} modifies committed entries of the store in place")
+    return n
+
+
+def uri_join_keeps_names(ctx: Ctx, rule: str) -> int:
+    """The URI join of the DBFS store removes separator syntax only: a statement `s = s[k:]` is reached only under a test
+    that pins what is removed to a separator (`s == LIT`, or `s.startswith(LIT)` with LIT ending in '/'). A bare
+    `s.startswith('.')` also matches '.hidden' and cuts into the name: '/.a/b' and '/a/b' then share a location."""
+    rep = ctx.report
+    prog = ctx.prog
+    cls = prog.classes.get("dds.codecs.databricks.DBFSURI")
+    if cls is None or "joinpath" not in cls.methods:
+        raise AnchorError("role URI join (dds.codecs.databricks.DBFSURI.joinpath) not found")
+    f = cls.methods["joinpath"]
+    n = 0
+    for st in f.own_nodes():
+        if not (isinstance(st, ast.Assign) and len(st.targets) == 1 and isinstance(st.targets[0], ast.Name) and isinstance(st.value, ast.Subscript)
+                and isinstance(st.value.value, ast.Name) and st.value.value.id == st.targets[0].id and isinstance(st.value.slice, ast.Slice)
+                and st.value.slice.upper is None and isinstance(st.value.slice.lower, ast.Constant)):
+            continue
+        n += 1
+        var, k = st.targets[0].id, st.value.slice.lower.value
+        guard = None
+        for a in f.module.parent and _ancestors_of(f, st):
+            if isinstance(a, ast.If) and any(x is st for b in a.body for x in ast.walk(b)):
+                guard = a
+                break
+        desc = f"`{unparse(st, 30)}` removes separator syntax only"
+        wit: List[str] = []
+        if guard is None:
+            wit.append(f"{f.loc(st)}: unconditional removal of {k} character(s)")
+        else:
+            atoms = guard.test.values if isinstance(guard.test, ast.BoolOp) and isinstance(guard.test.op, ast.Or) else [guard.test]
+            for a in atoms:
+                lit = None
+                exact = False
+                if isinstance(a, ast.Compare) and len(a.ops) == 1 and isinstance(a.ops[0], ast.Eq) and isinstance(a.left, ast.Name) and a.left.id == var \
+                        and isinstance(a.comparators[0], ast.Constant) and isinstance(a.comparators[0].value, str):
+                    lit, exact = a.comparators[0].value, True
+                elif isinstance(a, ast.Call) and isinstance(a.func, ast.Attribute) and a.func.attr == "startswith" and isinstance(a.func.value, ast.Name) \
+                        and a.func.value.id == var and a.args and isinstance(a.args[0], ast.Constant) and isinstance(a.args[0].value, str):
+                    lit = a.args[0].value
+                if lit is None:
+                    wit.append(f"{f.loc(a)}: test `{unparse(a, 50)}` does not pin the removed text")
+                elif not all(ch in "./" for ch in lit[:k]) or k > len(lit):
+                    wit.append(f"{f.loc(a)}: removes {lit[:k]!r} / more than the tested prefix {lit!r}")
+                elif not exact and not lit.endswith("/"):
+                    wit.append(f"{f.loc(a)}: `{unparse(a, 40)}` also matches a name that merely begins with {lit!r} ('.hidden'): its first character is cut, "
+                               "so '/.a/b' and '/a/b' are joined to the same location (data copies overwrite each other; with the path passed as its own segment the redirect records alias too)")
+        if wit:
+            rep.bad(rule, f.qname, desc, f.loc(st), wit, stmt_key(st), what="the URI join of the DBFS store cuts the leading '.' of hidden names: distinct paths alias")
+        else:
+            rep.ok(rule, f.qname, desc, f.loc(st))
+    return n
+
+
+def _ancestors_of(f: Func, node: ast.AST):
+    cur = node
+    while cur in f.module.parent:
+        cur = f.module.parent[cur]
+        yield cur
+        if isinstance(cur, (ast.FunctionDef, ast.AsyncFunctionDef)):
+            return
 
 
 def link_current_test(ctx: Ctx, v: LocalView, rule: str) -> int:
